@@ -500,7 +500,13 @@ def check_e2e(case):
     ex = local_exponents(usable)
     best = max(ex)
     res.classes.append(f"E/best-exp-n~{round((best - n) * 2) / 2:+.1f}")
-    if not best >= n - E_THR:
+    # local exponents that still rise towards n (Richardson value 2 e_last - e_prev reaching the threshold) are the
+    # pre-asymptotic approach of correct code (thorough tier, NNLO crossing: 2.00, 2.56), not a lower-order term, which
+    # would make them fall: undecided
+    rising = len(ex) >= 2 and ex[-1] > ex[-2] and 2 * ex[-1] - ex[-2] >= n - E_THR
+    if rising and not best >= n - E_THR:
+        res.classes.append("E/undecided-rising")
+    if not best >= n - E_THR and not rising:
         path = f"{'threshold' if thr else 'ffns'}"
         res.fail(
             f"{ID}/E/exponent/{where}/{path}",
